@@ -31,23 +31,26 @@ def run(ids, tier="quick", seeds=("1",)):
         d = os.path.join(SD, sid)
         meta = json.load(open(os.path.join(d, "meta.json")))
         prop = meta["property"]
-        st = subprocess.run(["git", "-C", "/repo", "status", "--porcelain", "--untracked-files=no"], stdout=subprocess.PIPE).stdout.decode().strip()
-        if st:
-            print("refusing: /repo has local modifications:\n" + st)
-            return 2
-        r = subprocess.run(["git", "-C", "/repo", "apply", os.path.join(d, "patch.diff")])
+        # the change is applied to a scratch copy of /repo's current tree (VERIF_REPO), so that nothing else
+        # that uses /repo at the same time is disturbed; the checks rebuild from that copy
+        copy = "/var/tmp/asl-verif-main/seedrepo-%s-%d" % (sid, os.getpid())
+        shutil.rmtree(copy, ignore_errors=True)
+        subprocess.run(["rsync", "-a", "--exclude", "_build", "--exclude", ".git", "/repo/", copy + "/"], check=True)
+        r = subprocess.run(["patch", "-p1", "-s", "-d", copy, "-i", os.path.join(d, "patch.diff")], stdout=subprocess.PIPE, stderr=subprocess.STDOUT)
         if r.returncode != 0:
-            rows.append((sid, prop, "patch-does-not-apply", ""))
+            rows.append((sid, prop, "patch-does-not-apply", r.stdout.decode()[-200:]))
+            print(rows[-1], flush=True)
+            shutil.rmtree(copy, ignore_errors=True)
             continue
         try:
             outs = []
             for seed in seeds:
                 r = subprocess.run([sys.executable, os.path.join(HERE, "check.py"), prop, "--tier", tier], stdout=subprocess.PIPE, stderr=subprocess.PIPE,
-                                   env=dict(os.environ, VERIF_SEED=seed))
+                                   env=dict(os.environ, VERIF_SEED=seed, VERIF_REPO=copy))
                 lines = [l for l in r.stdout.decode().split("\n") if l.startswith("VIOLATION")]
                 outs.append((r.returncode, lines[:1]))
         finally:
-            subprocess.run(["git", "-C", "/repo", "checkout", "--", "."])
+            shutil.rmtree(copy, ignore_errors=True)
         caught = all(rc == 1 for rc, _ in outs)
         kind = ""
         if outs and outs[0][1]:
